@@ -1474,6 +1474,31 @@ def FormEncodable (p : RS) (e : Option Enc) (v : V) : Prop :=
   | some t => hasTy t v = true ∧ ∀ txt, showPrim v = some txt → txt ≠ []
   | none => False
 
+/-! #### what a multipart body encodes (written from RFC 7578 / the OAS text, not from the decoder's loops) -/
+
+/-- what one part's content encodes under its own Content-Type (a part without one is text/plain, RFC 7578 §4.4);
+`none`: nothing (undecodable content, or a media type without simple decoder) -/
+def specPart (reg : List (Str × DecK)) (p : Part) : Option V :=
+  match lookup (base (if p.ct = [] then "text/plain".toList else p.ct)) reg with
+  | some .json => p.json
+  | some .plain => some (.str p.text)
+  | some .file => some (.str p.text)
+  | some .yaml => p.yaml
+  | some .csv => p.csv.map fun recs => .str (csvJoin recs)
+  | _ => none
+
+/-- the object a list of parts encodes for an object schema: every part must be declared (or ignorable:
+`additionalProperties: true`) and every declared part decodable — in any order; a property declared as array
+collects the values of all its parts in order, any other property takes its first part; properties without a part
+are absent -/
+def specMultipart (reg : List (Str × DecK)) (s : RS) (ps : List Part) : Option V :=
+  if ps.any (fun p => partDecl s p.name == .undefined) then none
+  else if (ps.filter fun p => partDecl s p.name == .found).any (fun p => (specPart reg p).isNone) then none
+  else some (.obj ((assemblyProps s).filterMap fun kp =>
+    match ((ps.filter fun p => partDecl s p.name == .found).filter fun p => p.name = kp.1).filterMap (specPart reg) with
+    | [] => none
+    | v :: vs => some (kp.1, if tyIs kp.2.ty .array then .arr (v :: vs) else v)))
+
 /-- the value a body encodes under the decoder registered for the request's media type (`none`: nothing) -/
 def specDecode (reg : List (Str × DecK)) (ct : Str) (s : RS) (encs : List (Str × Enc)) (b : BodyIn) : Option V :=
   match lookup (base ct) reg with
@@ -1486,8 +1511,7 @@ def specDecode (reg : List (Str × DecK)) (ct : Str) (s : RS) (encs : List (Str 
       | some fields => ((specFormProps fields encs (flatDecls s)).bind mergeKV).map .obj
       | none => none
     else none
-  | some .multipart =>
-    (match decodeMultipart reg s b.parts with | .val v => some v | _ => none)
+  | some .multipart => if tyIs s.ty .object then b.parts.bind (specMultipart reg s) else none
   | some .yaml => b.yaml                                    -- the (first) YAML document
   | some .csv => b.csv.map fun recs => .str (csvJoin recs)  -- the library's reading: the normalised records as text
   | none => none
